@@ -422,3 +422,170 @@ Proof. split; vm_compute; reflexivity. Qed.
     into "no zone". *)
 Example neq_refuted : forall flag sv zones, prune flag ONeq sv zones = None.
 Proof. reflexivity. Qed.
+
+(** * Numeric strings: [parse_str_to_epoch_seconds] of a decimal string IS
+      [normalize_integer_epoch] of the number (the RFC 3339 and date-only branches reject it) *)
+
+Lemma int_str_cases : forall s z,
+  parse_int_str s = Some z ->
+  (exists sg r, (sg = 45 \/ sg = 43)%N /\ s = sg :: r /\ r <> [] /\ forallb is_digit r = true)
+  \/ (s <> [] /\ forallb is_digit s = true).
+Proof.
+  intros s z H. destruct s as [|c r]; [discriminate|].
+  destruct (N.eqb_spec c 45) as [->|H45].
+  - left. destruct r as [|x r']; [discriminate|]. cbn [parse_int_str] in H.
+    destruct (all_digits_val (x :: r') 0) as [w|] eqn:E; [|discriminate].
+    exists 45%N, (x :: r'). repeat split; auto; [discriminate | eapply all_digits_forall; exact E].
+  - destruct (N.eqb_spec c 43) as [->|H43].
+    + left. destruct r as [|x r']; [discriminate|]. cbn [parse_int_str] in H.
+      exists 43%N, (x :: r'). repeat split; auto; [discriminate | eapply all_digits_forall; exact H].
+    + right. rewrite parse_int_str_other in H by assumption.
+      split; [discriminate | eapply all_digits_forall; exact H].
+Qed.
+
+Lemma scan_number_aux_rest_digits : forall max ds min acc v rest,
+  forallb is_digit ds = true -> scan_number_aux ds min max acc = Some (v, rest) ->
+  forallb is_digit rest = true.
+Proof.
+  induction max as [|max IH]; intros ds min acc v rest Hd H.
+  - destruct ds; cbn [scan_number_aux] in H; destruct min; try discriminate;
+      injection H as _ <-; exact Hd.
+  - destruct ds as [|c r]; cbn [scan_number_aux] in H.
+    + destruct min; [injection H as _ <-; reflexivity | discriminate].
+    + cbn [forallb] in Hd. apply andb_prop in Hd. destruct Hd as [Hc Hr]. rewrite Hc in H.
+      eapply IH; [exact Hr | exact H].
+Qed.
+
+Lemma scan_char_digits_none : forall rest, forallb is_digit rest = true -> scan_char rest 45 = None.
+Proof.
+  intros rest H. destruct rest as [|c r]; [reflexivity|].
+  cbn [forallb] in H. apply andb_prop in H. destruct H as [Hc _]. apply is_digit_range in Hc.
+  unfold scan_char. destruct (N.eqb_spec c 45); [lia | reflexivity].
+Qed.
+
+Lemma scan_digits_all_digits : forall ds acc seen,
+  forallb is_digit ds = true ->
+  scan_digits_all ds acc seen = None \/ exists v, scan_digits_all ds acc seen = Some (v, []).
+Proof.
+  induction ds as [|c r IH]; intros acc seen Hd; cbn [scan_digits_all].
+  - destruct seen; [right; eexists; reflexivity | left; reflexivity].
+  - cbn [forallb] in Hd. apply andb_prop in Hd. destruct Hd as [Hc Hr]. rewrite Hc.
+    destruct (acc * 10 + Z.of_N (digit_val c) >? i64_max); [left; reflexivity | apply IH; exact Hr].
+Qed.
+
+Lemma rfc3339_rejects_int_str : forall s z, parse_int_str s = Some z -> parse_rfc3339 s = None.
+Proof.
+  intros s z H. destruct (int_str_cases s z H) as [[sg [r [Hsg [-> [Hne Hd]]]]]|[Hne Hd]].
+  - unfold parse_rfc3339, scan_number. destruct Hsg; subst; reflexivity.
+  - unfold parse_rfc3339. destruct (scan_number s 4 4) as [[y rest]|] eqn:E; [|reflexivity].
+    unfold scan_number in E.
+    rewrite (scan_char_digits_none rest (scan_number_aux_rest_digits _ _ _ _ _ _ Hd E)). reflexivity.
+Qed.
+
+Lemma date_only_rejects_int_str : forall s z, parse_int_str s = Some z -> parse_date_only s = None.
+Proof.
+  intros s z H. destruct (int_str_cases s z H) as [[sg [r [Hsg [-> [Hne Hd]]]]]|[Hne Hd]].
+  - unfold parse_date_only, scan_year. cbv zeta.
+    destruct Hsg; subst sg; (rewrite trim_start_nonws by reflexivity); cbv beta iota;
+      destruct (scan_digits_all_digits r 0 false Hd) as [E|[v E]]; rewrite E; reflexivity.
+  - destruct s as [|c r]; [congruence|].
+    assert (Hc : is_digit c = true) by (cbn [forallb] in Hd; apply andb_prop in Hd; tauto).
+    unfold parse_date_only. rewrite scan_year_digit by exact Hc.
+    destruct (scan_number (c :: r) 1 4) as [[y rest]|] eqn:E; [|reflexivity].
+    unfold scan_number in E.
+    rewrite (scan_char_digits_none rest (scan_number_aux_rest_digits _ _ _ _ _ _ Hd E)). reflexivity.
+Qed.
+
+Theorem numeric_string_is_integer : forall s z,
+  parse_int_str s = Some z -> parse_str_to_epoch_seconds s = normalize_integer_epoch z.
+Proof.
+  intros s z H. unfold parse_str_to_epoch_seconds. cbv zeta.
+  rewrite (trim_of_int_str s z H), (rfc3339_rejects_int_str s z H), (date_only_rejects_int_str s z H), H.
+  reflexivity.
+Qed.
+
+(** ** the decimal rendering of an integer parses back to it *)
+
+Lemma all_digits_app : forall ds tl a,
+  all_digits_val (ds ++ tl) a =
+  match all_digits_val ds a with Some v => all_digits_val tl v | None => None end.
+Proof.
+  induction ds as [|c r IH]; intros tl a; cbn [app all_digits_val]; [reflexivity|].
+  destruct (is_digit c); [apply IH | reflexivity].
+Qed.
+
+Lemma dec_digits_fuel_spec : forall f n acc,
+  (n < 2 ^ N.of_nat f)%N -> (0 < f)%nat ->
+  exists ds k, dec_digits_fuel f n acc = ds ++ acc /\ ds <> []
+    /\ forall a, all_digits_val ds a = Some (a * 10 ^ k + Z.of_N n) /\ 0 <= k.
+Proof.
+  induction f as [|f IH]; intros n acc Hn Hf; [lia|].
+  cbn [dec_digits_fuel]. cbv zeta.
+  destruct (N.eqb_spec (n / 10) 0) as [Hz|Hnz].
+  - exists [(48 + n mod 10)%N], 1. split; [reflexivity|]. split; [discriminate|].
+    intros a. cbn [all_digits_val]. rewrite is_digit_48 by lia. rewrite digit_val_48.
+    split; [f_equal; lia | lia].
+  - assert (Hf' : (0 < f)%nat).
+    { destruct f; [|lia]. change (2 ^ N.of_nat 1)%N with 2%N in Hn. lia. }
+    assert (Hn' : (n / 10 < 2 ^ N.of_nat f)%N).
+    { rewrite Nat2N.inj_succ, N.pow_succ_r' in Hn. remember (2 ^ N.of_nat f)%N as P. lia. }
+    destruct (IH (n / 10)%N ((48 + n mod 10)%N :: acc) Hn' Hf') as [ds [k [E [Hne Hv]]]].
+    exists (ds ++ [(48 + n mod 10)%N]), (k + 1). split; [rewrite E, <- app_assoc; reflexivity|].
+    split; [destruct ds; discriminate|].
+    intros a. destruct (Hv a) as [Hva Hk]. rewrite all_digits_app, Hva. cbn [all_digits_val].
+    rewrite is_digit_48 by lia. rewrite digit_val_48. split; [|lia].
+    f_equal. rewrite Z.pow_add_r by lia. change (10 ^ 1) with 10. lia.
+Qed.
+
+Lemma dec_of_N_spec : forall n,
+  exists ds, dec_of_N n = ds /\ ds <> [] /\ all_digits_val ds 0 = Some (Z.of_N n).
+Proof.
+  intros n. unfold dec_of_N.
+  assert (Hn : (n < 2 ^ N.of_nat (S (N.to_nat (N.log2 n))))%N).
+  { rewrite Nat2N.inj_succ, N2Nat.id. destruct (N.eqb_spec n 0) as [->|Hnz]; [reflexivity|].
+    apply N.log2_spec. lia. }
+  destruct (dec_digits_fuel_spec _ n [] Hn ltac:(lia)) as [ds [k [E [Hne Hv]]]].
+  exists ds. rewrite E, app_nil_r. split; [reflexivity|]. split; [exact Hne|].
+  destruct (Hv 0) as [Hv0 _]. rewrite Hv0. f_equal; lia.
+Qed.
+
+Lemma parse_dec_of_Z : forall n, parse_int_str (dec_of_Z n) = Some n.
+Proof.
+  intros n. destruct n as [|p|p]; [reflexivity| |].
+  - cbn [dec_of_Z]. destruct (dec_of_N_spec (Npos p)) as [ds [-> [Hne Hv]]].
+    destruct ds as [|c r]; [congruence|].
+    pose proof (all_digits_forall _ _ _ Hv) as Hd. cbn [forallb] in Hd.
+    apply andb_prop in Hd. destruct Hd as [Hc _]. apply is_digit_range in Hc.
+    rewrite parse_int_str_other by lia. exact Hv.
+  - cbn [dec_of_Z]. destruct (dec_of_N_spec (Npos p)) as [ds [-> [Hne Hv]]].
+    destruct ds as [|c r]; [congruence|].
+    cbn [parse_int_str]. rewrite Hv. reflexivity.
+Qed.
+
+Theorem decimal_string_is_integer : forall n,
+  parse_str_to_epoch_seconds (dec_of_Z n) = normalize_integer_epoch n.
+Proof. intros n. apply numeric_string_is_integer, parse_dec_of_Z. Qed.
+
+(** ** All STRING spellings of one instant — ISO with any offset/fraction, and the decimal
+    strings of its second / millisecond / microsecond / nanosecond counts inside their
+    bands — go to the same second through [parse_str_to_epoch_seconds]. *)
+Theorem all_string_spellings_agree : forall t frac sep off tz ws1 ws2 rms rus rns,
+  iso_t_lo <= t <= iso_t_hi ->
+  forallb is_digit frac = true -> sep_ok sep = true ->
+  Z.abs off <= 1439 -> tz_ok off tz ->
+  forallb is_ascii_ws ws1 = true -> forallb is_ascii_ws ws2 = true ->
+  0 <= rms < 1000 -> 0 <= rus < 1000000 -> 0 <= rns < 1000000000 ->
+  parse_str_to_epoch_seconds (ws1 ++ TimePrint.print_instant_gen t frac sep off tz ++ ws2) = Some t /\
+  (Z.abs t < 10 ^ 11 -> parse_str_to_epoch_seconds (dec_of_Z t) = Some t) /\
+  (10 ^ 11 <= Z.abs (t * 1000 + rms) < 10 ^ 14 ->
+     parse_str_to_epoch_seconds (dec_of_Z (t * 1000 + rms)) = Some t) /\
+  (10 ^ 14 <= Z.abs (t * 1000000 + rus) < 10 ^ 16 ->
+     parse_str_to_epoch_seconds (dec_of_Z (t * 1000000 + rus)) = Some t) /\
+  (10 ^ 16 <= Z.abs (t * 1000000000 + rns) < 10 ^ 19 ->
+     parse_str_to_epoch_seconds (dec_of_Z (t * 1000000000 + rns)) = Some t).
+Proof.
+  intros t frac sep off tz ws1 ws2 rms rus rns Ht Hfr Hsep Hoff Htz H1 H2 Hms Hus Hns.
+  destruct (unit_spellings_agree t rms rus rns Hms Hus Hns) as [A [B [C D]]].
+  split; [apply iso_string_agree; assumption|].
+  repeat split; intros Hb; rewrite decimal_string_is_integer; auto.
+Qed.
